@@ -3,9 +3,9 @@
     Model: Convert.v (flavour conversions of t2data, generic in the tables and MOP programs of
     Gen/GenConvert.v, regenerated from t2data.py on every run), WaiweraJson.v (the pieces of json()
     the statement names).  All statements are over EVERY model object [d] (no size bound). *)
-From Coq Require Import Ascii String List Bool Arith ZArith.
+From Coq Require Import Ascii String List Bool Arith ZArith Permutation.
 From PTBase Require Import Exn PyStr.
-From P Require Import Lang Convert SectionLemmas MopLemmas ConvertLemmas ConvertLemmas2 WaiweraJson JsonLemmas Examples.
+From P Require Import Lang Convert SectionLemmas SectionOrder MopLemmas ConvertLemmas ConvertLemmas2 WaiweraJson JsonLemmas JsonLemmas2 Examples.
 From Gen Require Import GenConvert.
 Import ListNotations.
 Open Scope list_scope.
@@ -138,3 +138,93 @@ Theorem ex_export :
   NoDup (x_geo ex_xin).
 Proof. exact ex_export_ok. Qed.
 Print Assumptions ex_export.
+
+(** ** section placement: the order of the sections written, for any initial section order *)
+(** insert_section (through section_insertion_index) keeps, for EVERY rank n and every reference list without
+    repetitions, the keywords of rank <= n in reference order -- wherever the keywords of higher rank are *)
+Theorem insert_section_keeps_order : forall A, NoDup A -> forall n s secs, ~ In s secs -> prefix_sorted A n secs ->
+  prefix_sorted A n (insert_at (sec_insertion_index A s secs) s secs).
+Proof. exact insert_keeps_order. Qed.
+Print Assumptions insert_section_keeps_order.
+Theorem update_sections_keeps_order : forall n d, sorted_upto n (sections d) -> sorted_upto n (written_sections d).
+Proof. exact update_sections_keeps_order_lemma. Qed.
+Print Assumptions update_sections_keeps_order.
+Theorem to_autough2_keeps_order : forall n mp sim eos d d', convert_to_AUTOUGH2 mp sim eos d = Ok d' ->
+  sorted_upto n (sections d) -> sorted_upto n (sections d') /\ sorted_upto n (written_sections d').
+Proof. exact to_autough2_keeps_order_lemma. Qed.
+Print Assumptions to_autough2_keeps_order.
+Theorem to_tough2_keeps_order : forall n mp d d', convert_to_TOUGH2 mp d = Ok d' ->
+  sorted_upto n (sections d) -> sorted_upto n (sections d') /\ sorted_upto n (written_sections d').
+Proof. exact to_tough2_keeps_order_lemma. Qed.
+Print Assumptions to_tough2_keeps_order.
+(** what the reader needs: SHORT (read against grid and generators) is written after ELEME, CONNE, GENER ... *)
+Theorem short_written_after_grid : forall mp sim eos d d' x, convert_to_AUTOUGH2 mp sim eos d = Ok d' ->
+  sorted_upto (rk kw_short) (sections d) -> In x grid_keywords ->
+  In x (written_sections d') -> In kw_short (written_sections d') -> before x kw_short (written_sections d').
+Proof. exact short_written_after_grid_lemma. Qed.
+Print Assumptions short_written_after_grid.
+(** ... and so are FOFT / COFT / GOFT after a conversion to TOUGH2 *)
+Theorem history_written_after_grid : forall mp d d' x h, convert_to_TOUGH2 mp d = Ok d' ->
+  sorted_upto (rk kw_goft) (sections d) -> In x grid_keywords -> In h history_keywords ->
+  In x (written_sections d') -> In h (written_sections d') -> before x h (written_sections d').
+Proof. exact history_written_after_grid_lemma. Qed.
+Print Assumptions history_written_after_grid.
+(** the hypothesis is met by a section list whose history sections precede ELEME (and the stronger one is not) *)
+Theorem ex_history_first : sorted_upto (rk kw_short) (sections ex_hist_first) /\ ~ sorted_upto (rk kw_goft) (sections ex_hist_first).
+Proof. exact ex_hist_first_sorted. Qed.
+Print Assumptions ex_history_first.
+
+(** ** the MULKOM compatibility rescaling of MOP(23) *)
+(** once the source clears the simulator string AFTER the parameter conversion, convert_to_TOUGH2 rescales and
+    rewrites the options exactly as convert_AUTOUGH2_parameters_to_TOUGH2 does on the unconverted model *)
+Theorem to_tough2_rescales_as_parameters : t2_clears_simulator_first = false ->
+  forall mp d d', convert_to_TOUGH2 mp d = Ok d' ->
+  exists dp, params_to_tough2 mp d = Ok dp /\ rocks d' = rocks dp /\ options d' = options dp.
+Proof. exact to_tough2_rescales_as_parameters_lemma. Qed.
+Print Assumptions to_tough2_rescales_as_parameters.
+(** while it clears it BEFORE: the documented rescaling is lost (witness: a MULKOM model with MOP(23) = 1) *)
+Theorem mulkom_rescaling_lost_refuted : t2_clears_simulator_first = true ->
+  on_ok (convert_to_TOUGH2 false ex_mulkom) (fun d' => forallb (fun r => Nat.eqb (r_scaled r) 0) (rocks d')) = true /\
+  on_ok (params_to_tough2 false ex_mulkom) (fun d' => forallb (fun r => Nat.eqb (r_scaled r) 1) (rocks d')) = true.
+Proof. exact mulkom_rescaling_lost_lemma. Qed.
+Print Assumptions mulkom_rescaling_lost_refuted.
+Theorem mulkom_rescaling_kept : t2_clears_simulator_first = false ->
+  on_ok (convert_to_TOUGH2 false ex_mulkom) (fun d' => forallb (fun r => Nat.eqb (r_scaled r) 1) (rocks d')) = true.
+Proof. exact mulkom_rescaling_kept_lemma. Qed.
+Print Assumptions mulkom_rescaling_kept.
+
+(** ** export, second part *)
+(** the geometry's block list, for each of the three block orders: atmosphere blocks first, then a permutation of the
+    underground blocks (the layer/column list itself unless dmplex) *)
+Theorem block_order : forall g l, block_name_list g = Ok l -> block_order_spec g l.
+Proof. exact block_order_lemma. Qed.
+Print Assumptions block_order.
+Theorem cell_index_all_orders : forall g l x,
+  block_name_list g = Ok l -> x_geo x = l -> x_natm x = Z.of_nat (length (gm_atm g)) -> NoDup l ->
+  exists u, l = gm_atm g ++ u /\ Permutation u (map fst (gm_under g)) /\
+    (gm_order g <> BODmplex -> u = map fst (gm_under g)) /\
+    (forall i n, nth_error (gm_atm g) i = Some n -> cell_index x n = Some (Z.of_nat i - Z.of_nat (length (gm_atm g)))%Z) /\
+    (forall j n, nth_error u j = Some n -> cell_index x n = Some (Z.of_nat j)).
+Proof. exact cell_index_all_orders_lemma. Qed.
+Print Assumptions cell_index_all_orders.
+Theorem initial_per_cell : forall x l, initial_cells x = Ok l -> (0 <= x_natm x)%Z ->
+  length l = length (x_geo x) - nat_of_z (x_natm x) /\
+  (NoDup (x_geo x) -> forall n c, In n (x_geo x) -> cell_index x n = Some c -> (0 <= c)%Z ->
+     option_map Some (nth_error l (Z.to_nat c)) = Some (cell_value x n)).
+Proof. exact initial_per_cell_lemma. Qed.
+Print Assumptions initial_per_cell.
+Theorem boundary_faces_on_interior_connections : forall x l, boundary_faces x = Ok l ->
+  boundary_spec x l /\
+  (forall b, In b (grid_blocks (x_d x)) -> nonbdy x b = false ->
+     forall cells, face_cells x (b_name b) (grid_conns (x_d x)) = Ok cells -> cells <> [] -> exists v, In (b_name b, (v, cells)) l).
+Proof. exact boundary_faces_lemma. Qed.
+Print Assumptions boundary_faces_on_interior_connections.
+Theorem no_face_without_interior : forall x bn c, counts_face x bn c = true ->
+  exists o b, other_end bn c = Some o /\ grid_lookup x o = Some b /\ nonbdy x b = true.
+Proof. exact no_face_without_interior_lemma. Qed.
+Print Assumptions no_face_without_interior.
+Theorem ex_orders_initial_boundary :
+  on_ok (block_name_list (ex_geom BODmplex)) (fun l => str_list_eqb l (map s2l ["atm 0"; "  a 1"; "  c 1"; "  b 1"]%string)) = true /\
+  on_ok (initial_cells ex_xin) (fun l => z_list_eqb l [7; 5; 5]%Z) = true.
+Proof. exact (conj (proj1 ex_block_orders) (proj1 ex_initial_boundary)). Qed.
+Print Assumptions ex_orders_initial_boundary.
